@@ -91,10 +91,76 @@ def form_of(crate, t):
     return None
 
 
-def seam_tables(ctx, crate):
+def dir_args(crate, body, first, dn, st):
+    """argument list for a function taking (.., a MainWind by value or by reference)"""
+    args = []
+    for li in range(first, body.arg_count + 1):
+        t = body.local_ty(li)
+        if t.get("path") == MW: args.append(mw_value(crate, dn))
+        elif t["k"] == "ref" and t["to"].get("path") == MW:
+            st.heap[('tmp', 'dir%d' % li)] = mw_value(crate, dn); args.append(('ref_t', ('tmp', 'dir%d' % li)))
+        else: args.append(None)
+    return args
+
+
+def seam_tables_via_parts(ctx, crate, offs):
+    """same table, extracted through neighbour_from_parts when the dispatch helper does not exist as
+    a separate function: the two -1/0/+1 classes of the shifted coordinates are the finite key"""
+    clause = "seam-tables"
+    fn = L + "neighbour_from_parts"; nb = L + "neighbour_base_cell_offset"
+    b = ctx.anchor(crate, fn, clause)
+    if b is None or crate.body(nb) is None:
+        if b is not None: ctx.undecided(clause, "anchor:" + nb, "neither neighbour_from_shifted_coos nor neighbour_base_cell_offset found")
+        return None
+    names = crate.variant_names(MW)
+    pn = b.param_names()
+    table = {}
+    for base in range(12):
+        for dn in names:
+            if dn == "C": continue
+            di, dj = offs[dn]
+            def run(subst):
+                e = Engine(crate, opaque={OPT, nb}); e.subst = subst
+                st = State(); st.heap[('tmp', 'self')] = ('tmp_layer',)
+                args = [('ref_t', ('tmp', 'self')), C('u8', base), param("i"), param("j")] + dir_args(crate, b, 5, dn, st)[:1]
+                r = e.run_body(b, args, st, fk=((fn, -1),), stack=(fn,))
+                return e, r
+            e0, r0 = run({})
+            nbs = [ev for ev in e0.events.values() if ev.callee == nb]
+            if len(nbs) != 2:
+                table[(base, dn)] = ("?", "%d calls to neighbour_base_cell_offset" % len(nbs)); continue
+            def leaf(t):
+                ps = {x for x in walk(t) if x in (param("i"), param("j"))}
+                return ps
+            ri = [ev.ret for ev in nbs if leaf(ev.args[1]) == {param("i")}]; rj = [ev.ret for ev in nbs if leaf(ev.args[1]) == {param("j")}]
+            if len(ri) != 1 or len(rj) != 1:
+                table[(base, dn)] = ("?", "cannot tell the i and j class calls apart"); continue
+            e, r = run({ri[0]: C('i8', di), rj[0]: C('i8', dj)})
+            ctx.functions |= e.visited_fns
+            if not r.returns: table[(base, dn)] = "panic"; continue
+            ret = r.ret
+            if ret[0] == 'agg' and ret[1] == 'adt:std::option::Option' and ret[2] == 0: table[(base, dn)] = None; continue
+            evs = [ev for ev in e.events.values() if ev.callee == OPT]
+            if len(evs) == 1 and evs[0].ret == ret and evs[0].args[1][0] == 'c':
+                def form(t):
+                    f = form_of(crate, t)
+                    if f: return f
+                    ls = leaf(t)
+                    if ls == {param("i")}: return "i"
+                    if ls == {param("j")}: return "j"
+                    return None
+                fa, fb = form(evs[0].args[2]), form(evs[0].args[3])
+                if fa and fb: table[(base, dn)] = (evs[0].args[1][2], fa, fb); continue
+            table[(base, dn)] = ("?", show(ret)[:80])
+    return table
+
+
+def seam_tables(ctx, crate, offs=None):
     """(base cell, direction) -> None | (base', formA, formB), via neighbour_from_shifted_coos"""
     clause = "seam-tables"
     fn = L + "neighbour_from_shifted_coos"
+    if crate.body(fn) is None and offs is not None:
+        return seam_tables_via_parts(ctx, crate, offs)
     b = ctx.anchor(crate, fn, clause)
     if b is None: return None
     names = crate.variant_names(MW)
@@ -103,7 +169,9 @@ def seam_tables(ctx, crate):
     for base in range(12):
         for dn in names:
             if dn == "C": continue
-            e, r = run_with_ref_self(crate, fn, ('tmp_layer',), [C('u8', base), param("i"), param("j"), mw_value(crate, dn)], opaque={OPT})
+            st_x = State(); bx = crate.body(fn)
+            e = Engine(crate, opaque={OPT}); st_x.heap[('tmp', 'self')] = ('tmp_layer',)
+            r = e.run_body(bx, [('ref_t', ('tmp', 'self')), C('u8', base), param("i"), param("j")] + dir_args(crate, bx, 5, dn, st_x)[:1], st_x, fk=((fn, -1),), stack=(fn,))
             ctx.functions |= e.visited_fns
             if not r.returns:
                 table[(base, dn)] = "panic"; continue
@@ -147,7 +215,8 @@ def glue(ctx, crate, offs):
     ose, osw, fo, nb, shifted = MW + "::offset_se", MW + "::offset_sw", MW + "::from_offsets", L + "neighbour_base_cell_offset", L + "neighbour_from_shifted_coos"
     e = Engine(crate, opaque={ose, osw, fo, nb, shifted}); r = e.run(fn); ctx.functions |= e.visited_fns
     ev = {n: [x for x in e.events.values() if x.callee == n] for n in (ose, osw, fo, nb, shifted)}
-    ok = all(len(ev[n]) == 1 for n in (ose, osw, fo, shifted)) and len(ev[nb]) == 2
+    has_helper = crate.body(shifted) is not None
+    ok = all(len(ev[n]) == 1 for n in (ose, osw, fo)) and len(ev[nb]) == 2 and (len(ev[shifted]) == 1 or not has_helper)
     detail = "call counts %s" % {n.split("::")[-1]: len(v) for n, v in ev.items()}
     if ok:
         def shifted_coo(p, off_ev):
@@ -155,10 +224,15 @@ def glue(ctx, crate, offs):
         i2, j2 = shifted_coo("i", ev[ose][0]), shifted_coo("j", ev[osw][0])
         nb_i = [x for x in ev[nb] if x.args[1] == i2]; nb_j = [x for x in ev[nb] if x.args[1] == j2]
         ok = len(nb_i) == 1 and len(nb_j) == 1 and ev[fo][0].args == [nb_i[0].ret, nb_j[0].ret]
-        s = ev[shifted][0]
-        ok = ok and s.args[1] == param("d0h") and s.args[2] == ('cast', 'int_to_int', 'u32', i2) and s.args[3] == ('cast', 'int_to_int', 'u32', j2) and s.args[4] == ev[fo][0].ret \
-            and r.returns and r.ret == s.ret
-        detail = "i' = i + offset_se(dir), j' = j + offset_sw(dir); base-cell direction = from_offsets(nbco(i'), nbco(j')); result = neighbour_from_shifted_coos(d0h, i', j', that direction)"
+        from rules.common import argv
+        ok = ok and argv(ev[ose][0], 0) in (param("dir"), ('deref', param("dir"))) and argv(ev[osw][0], 0) in (param("dir"), ('deref', param("dir")))
+        if has_helper:
+            s = ev[shifted][0]
+            ok = ok and s.args[1] == param("d0h") and s.args[2] == ('cast', 'int_to_int', 'u32', i2) and s.args[3] == ('cast', 'int_to_int', 'u32', j2) and argv(s, 4) == ev[fo][0].ret \
+                and r.returns and r.ret == s.ret
+            detail = "i' = i + offset_se(dir), j' = j + offset_sw(dir); base-cell direction = from_offsets(nbco(i'), nbco(j')); result = neighbour_from_shifted_coos(d0h, i', j', that direction)"
+        else:
+            detail = "i' = i + offset_se(dir), j' = j + offset_sw(dir); base-cell direction = from_offsets(nbco(i'), nbco(j')); the seam table is matched in place on that direction (table extracted through this function)"
     ctx.report(clause, fn + ":composition", ok, detail, at=b.span, sample={"glue": detail})
     # edge_cell_neighbours: put_opt(D, neighbour_from_parts(d0h, i, j, D)) for the 8 directions
     fn2 = L + "edge_cell_neighbours"
@@ -166,16 +240,30 @@ def glue(ctx, crate, offs):
     if b2 is not None:
         putopt = [p for p in crate.bodies if strip_generics(p) == "compass_point::MainWindMap::put_opt"]
         e = Engine(crate, opaque={fn, L + "decode_hash"} | set(putopt)); e.run(fn2); ctx.functions |= e.visited_fns
+        from rules.common import argv
         nfp = {x.ret: x for x in e.events.values() if x.callee == fn}
         puts = [x for x in e.events.values() if x.callee in putopt]
         names = crate.variant_names(MW)
         seen = []
-        good = len(puts) == 8
+        good = len(puts) in (1, 8)
         dec = [x for x in e.events.values() if x.callee == L + "decode_hash"]
         for p in puts:
             src = nfp.get(p.args[2])
-            if src is None or src.args[4] != p.args[1] or p.args[1][0] != 'agg': good = False; continue
-            seen.append(names[p.args[1][2]])
+            key = argv(p, 1)
+            if src is None or argv(src, 4) != key: good = False; continue
+            if key[0] == 'agg': seen.append(names[key[2]])
+            else:
+                # table-driven loop: key = MainWind::from_index(TABLE[k]) with TABLE a constant array
+                idxs = None
+                for c in e.events.values():
+                    if c.ret == key and c.callee == MW + "::from_index":
+                        a = c.args[0]
+                        arrs = [x for x in walk(a) if x[0] == 'idx' and x[1][0] == 'agg' and x[1][1] == 'array' and all(y[0] == 'c' for y in x[1][3])]
+                        if len(arrs) == 1: idxs = [y[2] for y in arrs[0][1][3]]
+                if idxs is None: good = False; continue
+                for k in idxs:
+                    e2 = Engine(crate); r2 = e2.run(MW + "::from_index", [C('u8', k)])
+                    if r2.returns and r2.ret[0] == 'agg': seen.append(names[r2.ret[2]])
             if len(dec) != 1 or [a[0] for a in src.args[1:4]] != ['fld'] * 3 or any(a[1] != dec[0].ret for a in src.args[1:4]): good = False
         ctx.report(clause, fn2 + ":same-direction-twice-x8", good and sorted(seen) == sorted(DIRS), "put_opt(D, neighbour_from_parts(d0h, i, j, D)) for D in %s, (d0h, i, j) = decode_hash(hash)" % sorted(seen), at=b2.span)
     # neighbour(h, dir): decode + neighbour_from_parts with the caller's direction
@@ -184,7 +272,8 @@ def glue(ctx, crate, offs):
     if b3 is not None:
         e = Engine(crate, opaque={fn, L + "decode_hash", L + "check_hash"}); r = e.run(fn3); ctx.functions |= e.visited_fns
         dec = [x for x in e.events.values() if x.callee == L + "decode_hash"]; nf = [x for x in e.events.values() if x.callee == fn]
-        ok = len(dec) == 1 and len(nf) == 1 and dec[0].args[1] == param("hash") and nf[0].args[4] == param("direction") and all(a[0] == 'fld' and a[1] == dec[0].ret for a in nf[0].args[1:4]) and r.ret == nf[0].ret
+        from rules.common import argv
+        ok = len(dec) == 1 and len(nf) == 1 and dec[0].args[1] == param("hash") and argv(nf[0], 4) == param("direction") and all(a[0] == 'fld' and a[1] == dec[0].ret for a in nf[0].args[1:4]) and r.ret == nf[0].ret
         ctx.report(clause, fn3 + ":same-path-as-neighbours", ok, "neighbour(hash, dir) = neighbour_from_parts(decode_hash(hash), dir): the border path of neighbours() for every cell", at=b3.span)
 
 
@@ -243,12 +332,37 @@ def inner_cells(ctx, crate, offs):
         rbb = eb.run(fnb)
         terms = [d for d, loc in eb.branches]
         if rbb.returns:
-            terms += [o for o in eb.phi_ops.get(rbb.ret, [rbb.ret])]
-        conds = {frozenset((t[3], t[4])) for t in terms if t[0] == 'op' and t[1] == 'eq'}     # a == b  ==  b == a
-        other = [show(t) for t in terms if not (t[0] == 'op' and t[1] == 'eq') and t[0] != 'c']
+            todo = [rbb.ret]; seen_t = set()
+            while todo:
+                x = todo.pop()
+                if x in seen_t: continue
+                seen_t.add(x); terms.append(x)
+                for y in walk(x):
+                    if y[0] == 'phi': todo.extend(eb.phi_ops.get(y, ()))
+        atoms = {}
+        for t in terms:
+            for x in walk(t):
+                if x[0] == 'op' and x[1] in ('eq', 'ne') and x[2] == 'bool': atoms.setdefault(frozenset((x[3], x[4])), []).append(x)
         ib, jb = param("i_in_base_cell_bits"), param("j_in_base_cell_bits")
         want = {frozenset((C('u64', 0), ib)), frozenset((ib, xm)), frozenset((C('u64', 0), jb)), frozenset((jb, ym))}
-        ctx.report(clause, fnb + ":four-equalities", conds == want and not other, "border test = %s" % sorted(sorted(show(x) for x in c) for c in conds), at=bb.span)
+        ok = set(atoms) == want
+        detail = "atoms compared: %s" % sorted(sorted(show(x) for x in a) for a in atoms)
+        if ok:
+            # truth table: the function returns true iff at least one of the four equalities holds
+            keys = sorted(atoms, key=lambda a: sorted(map(str, a)))
+            bad = []
+            for m in range(16):
+                sub = {}
+                for k_i, a in enumerate(keys):
+                    val = bool((m >> k_i) & 1)
+                    for x in atoms[a]: sub[x] = C('bool', int(val if x[1] == 'eq' else not val))
+                e3 = Engine(crate); e3.subst = sub
+                r3 = e3.run(fnb)
+                got = r3.ret[2] if r3.returns and r3.ret[0] == 'c' else None
+                if got != (1 if m else 0): bad.append((m, got))
+            ok = not bad
+            detail = "border test = OR of the four equalities {i == 0, i == x_mask, j == 0, j == y_mask} (truth table over the 16 outcomes)" if ok else "truth table differs for outcomes %s" % bad[:3]
+        ctx.report(clause, fnb + ":four-equalities", ok, detail, at=bb.span)
     # neighbours(): edge path iff border, else inner path; both write the returned map
     fnn = L + "neighbours"
     bn = ctx.anchor(crate, fnn, clause)
@@ -302,7 +416,7 @@ def compare_with_model(ctx, crate, table, offs, fo, nsides):
             ctx.report(clause, "seam(base=%d,%s)" % (b, D), not bad,
                        "entry %s agrees with the vertex-sharing topology on every cell of nside %s" % (ent, nsides) if not bad else
                        "entry %s: at nside %d cell %s direction %s the code gives %s, the cells sharing that %s are %s" % (ent, bad[0][0], bad[0][1], bad[0][2], bad[0][3], "edge" if len(bad[0][2]) == 2 else "vertex", bad[0][4]),
-                       at=crate.body(L + "neighbour_from_shifted_coos").span,
+                       at=(crate.body(L + "neighbour_from_shifted_coos") or crate.body(L + "neighbour_from_parts")).span,
                        sample={"base_cell": b, "base_cell_direction": D, "entry": str(ent)} if (b in (0, 4, 8) and D in ("NE", "N", "E")) else None)
     inner_bad = mism.get((None, None), []) + [x for k, v in mism.items() if k[1] == "C" for x in v]
     ctx.report(clause, "same-base-cell-moves", not inner_bad, "(i+Δi, j+Δj) inside the base cell agrees with the model" if not inner_bad else "mismatch %s" % inner_bad[:2])
@@ -343,7 +457,7 @@ def run(ctx, crate):
     res = direction_algebra(ctx, crate)
     offs, fo = res
     offs = {d: offs[d] for d in crate.variant_names(MW)}
-    table = seam_tables(ctx, crate)
+    table = seam_tables(ctx, crate, offs)
     nsides = [1, 2, 4] if ctx.tier == "quick" else [1, 2, 4, 8, 16]
     n = compare_with_model(ctx, crate, table, offs, fo, nsides)
     ctx.floor("model-comparisons", n or 0, 8 * 12 * (1 + 4 + 16))
